@@ -656,7 +656,12 @@ class RamStorage(Storage):
     def temp_storage(self, name=None):
         tdir = tempfile.gettempdir()
         name = name or "%s.tmp" % random_name()
-        path = os.path.join(tdir, name)
+        # (A place of its own for each RamStorage object: the indexes of
+        # different RAM storages usually have the same name, and a writer
+        # removes the temporary storage of its index when it finishes)
+        if not hasattr(self, "_tempid"):
+            self._tempid = random_name(12)
+        path = os.path.join(tdir, "%s.%s" % (self._tempid, name))
         tempstore = FileStorage(path)
         return tempstore.create()
 
